@@ -51,6 +51,31 @@ def cases(T):
         inf = {i: (-FMAX[T] if i < 3 else FMAX[T]) for i in range(6)}
         add(nm + '.infinite_to_infinite', fn + '{T}', [In('b', 6, fixed=inf), In('m', 16), Out('r', 6)],
             lambda I, O, X, T=T: veq(O['r'], [rz(-FMAX[T])] * 3 + [rz(FMAX[T])] * 3, 'bound'), pre=lambda I: boxed(I['m']), desc='%s maps the infinite box to the infinite box (general matrix)' % nm, nvalid=0)
+    # projective matrices that differ from an affine one in exactly one entry of the last column: the affine fast path must
+    # not be taken (its test reads all four entries); the result must still contain the image of every corner
+    def proj(I, O, X):
+        b = I['b']; Mx = M(I['m'], 4); r = O['r']; cl = []
+        imgs = []
+        for k in range(8):
+            c = [b[3 * ((k >> i) & 1) + i] for i in range(3)]
+            h = vm(c + [rz(1)], Mx); imgs.append([rdiv(h[j], h[3]) for j in range(3)])
+        for k, im in enumerate(imgs):
+            cl.append(('contains the projected image of corner %d' % k, AND(*[AND(le(r[j], im[j]), le(im[j], r[3 + j])) for j in range(3)])))
+        for j in range(3):
+            cl.append(('min[%d] is attained by a corner image' % j, OR(*[eq(r[j], im[j]) for im in imgs])))
+            cl.append(('max[%d] is attained by a corner image' % j, OR(*[eq(r[3 + j], im[j]) for im in imgs])))
+        return cl
+    def wpos(I):
+        b = I['b']; Mx = M(I['m'], 4); cs = boxed(I['b'] + [v for v in I['m']]) + nonempty(I['b'])
+        for k in range(8):
+            c = [b[3 * ((k >> i) & 1) + i] for i in range(3)]
+            cs.append(lt(rz(0), vm(c + [rz(1)], Mx)[3]))        # every corner in front of the projection centre (w > 0)
+        return cs
+    for fn, nm in (('w_xform', 'transform'), ('w_xform_out', 'transform_outparam')):
+        for col, fx in (('p001', {7: 0, 11: 0, 15: 1}), ('0p01', {3: 0, 11: 0, 15: 1}), ('00p1', {3: 0, 7: 0, 15: 1}), ('000q', {3: 0, 7: 0, 11: 0})):
+            add('%s.projective_%s' % (nm, col), fn + '{T}', [In('b', 6), In('m', 16, fixed=fx), Out('r', 6)], proj, pre=wpos, budget=900, max_paths=50, timeout_ms=60000, core=False, tier='thorough', nvalid=2, setup=lambda sym: setattr(sym, 'div_as_var', True),
+                desc='%s with last column %s (one projective entry free): the result is the tight bound of the eight PROJECTED corner images - the affine fast path must not be taken unless the column is exactly (0,0,0,1)' % (nm, col),
+                bounds='entries in [-2^20, 2^20]; every corner has w > 0')
     return cs
 
 
